@@ -45,6 +45,7 @@ type ldCfg struct {
 	Assets []ldAsset `json:"assets"` // four assets; asset i has denom uasset<i+1> and c-asset ucasset<i+1>
 	NUsers int       `json:"n_users"`
 	Fund   string    `json:"pool_funding"`
+	Res    string    `json:"reserve_funding"`
 }
 
 type ldOp struct {
@@ -92,7 +93,8 @@ var ldModules = [2]string{lendtypes.ModuleAcc1, lendtypes.ModuleAcc3}
 
 func genLdCfg(rt *rapid.T) ldCfg {
 	cfg := ldCfg{Seed: uint64(rapid.IntRange(1, 1000).Draw(rt, "seed")), NUsers: rapid.IntRange(2, 3).Draw(rt, "nusers"),
-		Fund: rapid.SampledFrom([]string{"0", "10000000000", "1000000000000", "1000000000000"}).Draw(rt, "fund")}
+		Fund: rapid.SampledFrom([]string{"0", "10000000000", "1000000000000", "1000000000000"}).Draw(rt, "fund"),
+		Res:  rapid.SampledFrom([]string{"0", "1000000000000", "1000000000000"}).Draw(rt, "reserve")}
 	for i := 0; i < 4; i++ {
 		cfg.Assets = append(cfg.Assets, ldAsset{
 			Price:  rapid.SampledFrom([]uint64{1000000, 1000000, 250000, 4000000, 12345678, 999}).Draw(rt, fmt.Sprintf("price%d", i)),
@@ -197,6 +199,16 @@ func newLdMachine(t rec.TB, r *rec.Rec, prop string, cs *ldCase) *ldMachine {
 			}
 		}
 	}
+	if cfg.Res != "" {
+		if res := mustInt(cfg.Res); res.IsPositive() {
+			funder := c.Accs[cfg.NUsers].Addr.String()
+			for ai := range cfg.Assets {
+				if _, err := c.Deliver(lendtypes.NewMsgFundReserveAccounts(cfg.Assets[ai].ID, funder, sdk.NewCoin(ldDenom(ai), res))); err != nil {
+					panic(fmt.Errorf("fund reserve: %w", err))
+				}
+			}
+		}
+	}
 	c.NextBlock(5 * time.Second)
 	return m
 }
@@ -236,6 +248,31 @@ func (m *ldMachine) genOp(rt *rapid.T, i int) ldOp {
 	lends := m.k.GetAllLend(c.Ctx)
 	borrows := m.k.GetAllBorrow(c.Ctx)
 	kinds := []string{"lend", "lend", "borrow", "borrow", "borrow", "borrow", "borrow", "borrowalt", "deposit", "withdraw", "withdraw", "closelend", "depositborrow", "draw", "draw", "draw", "repay", "repay", "closeborrow", "calc", "block", "block", "block", "price", "fundmod"}
+	// steer towards the states that matter: interest waiting to be repaid (repaying it funds the lenders' rewards),
+	// and lend positions that were credited with rewards (available-to-borrow above principal)
+	var rewarded []lendtypes.LendAsset
+	for _, l := range lends {
+		if l.AvailableToBorrow.GT(l.AmountIn.Amount) && l.AmountIn.Amount.IsPositive() {
+			rewarded = append(rewarded, l)
+		}
+	}
+	if len(rewarded) > 0 && rapid.IntRange(0, 3).Draw(rt, lbl("onrewarded")) == 0 {
+		l := rewarded[rapid.IntRange(0, len(rewarded)-1).Draw(rt, lbl("rewarded"))]
+		span := l.AvailableToBorrow.Sub(l.AmountIn.Amount)
+		a := l.AmountIn.Amount.Add(span.MulRaw(rapid.Int64Range(0, 4).Draw(rt, lbl("frac"))).QuoRaw(4)).AddRaw(rapid.Int64Range(-1, 1).Draw(rt, lbl("d")))
+		return ldOp{K: "withdraw", U: m.userIdx(l.Owner), ID: l.ID, A: clampPos(a).String()}
+	}
+	for _, b := range borrows {
+		if b.InterestAccumulated.GTE(sdk.OneDec()) && !b.IsLiquidated && rapid.IntRange(0, 3).Draw(rt, lbl("payinterest")) == 0 {
+			l, _ := m.k.GetLend(c.Ctx, b.LendingID)
+			return ldOp{K: "repay", U: m.userIdx(l.Owner), ID: b.ID, A: b.InterestAccumulated.TruncateInt().String()}
+		}
+	}
+	if len(borrows) > 0 && len(lends) > 0 && rapid.IntRange(0, 5).Draw(rt, lbl("touchlend")) == 0 {
+		// an interaction of a lender credits its rewards
+		l := lends[rapid.IntRange(0, len(lends)-1).Draw(rt, lbl("lender"))]
+		return ldOp{K: "calc", U: m.userIdx(l.Owner)}
+	}
 	k := rapid.SampledFrom(kinds).Draw(rt, lbl("kind"))
 	op := ldOp{K: k}
 	amounts := []string{"1", "1000000", "5000001", "50000000", "123456789", "1000000000", "1000000000", "999999999999"}
